@@ -62,3 +62,40 @@ package outbound
 //@   loop 2
 //@     invariant 0 <= $iter && $iter < count && count <= 3 && (count == 1 || count == 3) && networkTypes[0] == deref(networkType)
 //@     invariant $iter >= 1 ==> (forall i int :: 0 <= i && i < dialer.nEnt(setOf(networkType.Index())) ==> dialer.entD(setOf(networkType.Index()), i) == excluded)
+
+// ---------------------------------------------------------------------------------------------
+// C14: a filter line is a conjunction of conditions; a condition holds when one of its values hits
+// (exact / keyword / regex on the node name or subscription tag), xor its negation.
+//   reN(f, p) / reT(f, p): result of matching the regex value p of condition f against the node's name /
+//   subscription tag (bound to the regexp2 call results at their call sites).
+//@ func (*DialerSet).filterHit
+//@   nonilcheck
+//@   dyncalls noeffect
+//@   trustframe
+//@   let nF() = len(filters)
+//@   let fn(f int) = filters[f].Name
+//@   let nP(f int) = len(filters[f].Params)
+//@   let key(f int, p int) = filters[f].Params[p].Key
+//@   let val(f int, p int) = filters[f].Params[p].Val
+//@   ghostfn reN(f int, p int) bool
+//@   ghostfn reT(f int, p int) bool
+//@   ghostfn vh(f int, p int) bool
+//@   ghostfn condHolds(f int) bool
+//@   at call MatchString#1 assume-after nth(result, 0) == reN($idx2, $idx)
+//@   at call MatchString#2 assume-after nth(result, 0) == reT($idx2, $idx)
+//@   assume forall f int, p int {vh(f, p)} :: 0 <= f && f < nF() && 0 <= p && p < nP(f) ==> (vh(f, p) <==> ( \
+//@        (fn(f) == FilterInput_Name && key(f, p) == FilterKey_Name_Regex && reN(f, p)) \
+//@     || (fn(f) == FilterInput_Name && key(f, p) == FilterKey_Name_Keyword && strings.Contains(dialer.Property().Name, val(f, p))) \
+//@     || (fn(f) == FilterInput_Name && key(f, p) == "" && dialer.Property().Name == val(f, p)) \
+//@     || (fn(f) == FilterInput_SubscriptionTag && key(f, p) == FilterInput_SubscriptionTag_Regex && reT(f, p)) \
+//@     || (fn(f) == FilterInput_SubscriptionTag && key(f, p) == "" && s.nodeToTagMap[dialer] == val(f, p))))
+//@   assume forall f int {condHolds(f)} :: 0 <= f && f < nF() ==> (condHolds(f) <==> ((exists p int {vh(f, p)} :: 0 <= p && p < nP(f) && vh(f, p)) != filters[f].Not))
+//@   ensures err == nil ==> (hit <==> (forall f int {condHolds(f)} :: 0 <= f && f < nF() ==> condHolds(f)))
+//@   loop 1
+//@     invariant forall f int {condHolds(f)} :: 0 <= f && f < $idx ==> condHolds(f)
+//@   loop 2
+//@     invariant forall f int {condHolds(f)} :: 0 <= f && f < $idx2 ==> condHolds(f)
+//@     invariant !subFilterHit && (forall p int {vh($idx2, p)} :: 0 <= p && p < $idx ==> !vh($idx2, p))
+//@   loop 3
+//@     invariant forall f int {condHolds(f)} :: 0 <= f && f < $idx2 ==> condHolds(f)
+//@     invariant !subFilterHit && (forall p int {vh($idx2, p)} :: 0 <= p && p < $idx ==> !vh($idx2, p))
